@@ -55,6 +55,12 @@ def noExtraArities (t : List Entry) (s : Spec) : Bool :=
 /-- Conversely the table accepts no argument count the specification does not allow. -/
 theorem no_extra_arities : n1.all (noExtraArities baseTable) = true := by decide
 
+/-- the same for the functions of the experimental table, under WithExperimentalFuncs: each is
+    reachable with every argument count of its specification and with no other -/
+theorem experimental_reachable :
+    experimentalSpec.all (specReachable (tableFor true)) = true ∧ experimentalSpec.all (noExtraArities (tableFor true)) = true ∧
+    experimentalTable.all (fun e => experimentalSpec.any (fun s => s.name == e.name)) = true := by decide
+
 /-- The names that are not implemented are exactly these, each bound to the placeholder that
     returns the explicit not-implemented error (never to some other function). -/
 def notImplementedNames : List String :=
